@@ -447,6 +447,12 @@ func scopeIndex(scope, root *types.Scope, id string) (string, bool) {
 	return scopeIndex(parent, root, id)
 }
 
+// ScopeIndices returns the suffix that distinguishes a function-local object
+// from same-named objects of other scopes ("" for package-level objects).
+func ScopeIndices(obj types.Object) string {
+	return scopeIndices(obj)
+}
+
 func scopeIndices(obj types.Object) string {
 	pkg := obj.Pkg()
 	if pkg == nil {
